@@ -327,20 +327,20 @@ func runLens() []int {
 
 func TestRuns(t *testing.T) {
 	pbt.Run(t, pbt.Sub[Run]{
-		Name: "runs", Quick: 12000, Thorough: 300000,
+		Name: "runs", Quick: 4000, Thorough: 100000,
 		Gen: func(t *rapid.T) Run {
 			c := Run{Hash: genHash(t), Mainnet: rapid.Bool().Draw(t, "mainnet"), Where: rapid.SampledFrom([]string{"lead", "lead", "lead", "trail", "inner", "ones"}).Draw(t, "where"), Pos: rapid.IntRange(0, 33).Draw(t, "pos")}
 			c.N = rapid.SampledFrom([]int{1, 2, 255, 256, 257, 511, 512, 513, 768, 1024}).Draw(t, "n")
 			if rapid.IntRange(0, 2).Draw(t, "any") == 0 {
 				c.N = rapid.IntRange(0, 1100).Draw(t, "n")
 			}
-			if (c.Where == "lead" || c.Where == "ones") && rapid.IntRange(0, 59).Draw(t, "n16") == 7 {
+			if (c.Where == "lead" || c.Where == "ones") && rapid.IntRange(0, 399).Draw(t, "n16") == 173 {
 				c.N = rapid.IntRange(65534, 65538).Draw(t, "n")
 			}
 			return c
 		},
 		Check:    checkRun,
-		EnumDesc: "8 base addresses (hashes with 0 / 1 / 2 / 3 leading zero bytes x both networks): n extra leading '1' for every n = 0..300, 510..514, 766..770, 1022..1026 and 65534..65538; the last character and two inner characters repeated n more times for the same n up to 1026; n '1' characters alone",
+		EnumDesc: "8 base addresses (hashes with 0 / 1 / 2 / 3 leading zero bytes x both networks): n extra leading '1' for every n = 0..300, 510..514, 766..770, 1022..1026 (65534..65538 for one base per network); for every second base the last character and two inner characters repeated n more times for the same n up to 1026; n '1' characters alone",
 		Enum: func(tier string, yield func(Run)) {
 			for i := 0; i < 8; i++ {
 				h := enumHash(14000 + i)
@@ -350,14 +350,16 @@ func TestRuns(t *testing.T) {
 				mn := i/4 == 0
 				for _, n := range runLens() {
 					yield(Run{Hash: h, Mainnet: mn, Where: "lead", N: n})
-					yield(Run{Hash: h, Mainnet: mn, Where: "trail", N: n})
-					yield(Run{Hash: h, Mainnet: mn, Where: "inner", N: n, Pos: 1 + i})
-					yield(Run{Hash: h, Mainnet: mn, Where: "inner", N: n, Pos: 17})
+					if i%2 == 0 {
+						yield(Run{Hash: h, Mainnet: mn, Where: "trail", N: n})
+						yield(Run{Hash: h, Mainnet: mn, Where: "inner", N: n, Pos: 1 + i})
+						yield(Run{Hash: h, Mainnet: mn, Where: "inner", N: n, Pos: 17})
+					}
 					if i == 0 {
 						yield(Run{Hash: h, Mainnet: mn, Where: "ones", N: n})
 					}
 				}
-				for n := 65534; n <= 65538; n++ {
+				for n := 65534; n <= 65538 && i%4 == 0; n++ { // ~0.3 s each: the constructors decode all of it
 					yield(Run{Hash: h, Mainnet: mn, Where: "lead", N: n})
 					if i == 0 {
 						yield(Run{Hash: h, Mainnet: mn, Where: "ones", N: n})
